@@ -3,6 +3,7 @@
 package verifharness
 
 import (
+	"bytes"
 	"strings"
 	"testing"
 
@@ -164,6 +165,68 @@ func TestC09(t *testing.T) {
 			}
 			out.emit("sum", "csum", []string{arg}, hx(codec.Sum(vals...)))
 		}
+	}
+	// EncodingWriter primitives: WriteOffset around the uint32 limits (it panics beyond them),
+	// the fixed-width little-endian writers
+	{
+		r := newRng(91)
+		edge := []uint64{0, 1, 4, 1<<16 - 1, 1 << 16, 1<<31 - 1, 1 << 31, 1<<32 - 5, 1<<32 - 4, 1<<32 - 1, 1 << 32, 1<<32 + 1, 1 << 33, 1<<63 - 1, 1 << 63, ^uint64(0)}
+		woff := func(prev, size uint64) {
+			out.emit("woff", "woff", []string{hx(prev), hx(size)}, guard(func() string {
+				var buf bytes.Buffer
+				w := codec.NewEncodingWriter(&buf)
+				off, err := w.WriteOffset(prev, size)
+				if err != nil {
+					return "ERR"
+				}
+				return "OK " + hx(off) + " " + hexBytes(buf.Bytes())
+			}))
+		}
+		for _, a := range edge {
+			for _, b := range edge {
+				woff(a, b)
+			}
+		}
+		for k := 0; k < 300; k++ {
+			woff(r.Uint64()>>uint(r.Intn(64)), r.Uint64()>>uint(r.Intn(64)))
+		}
+		for k := 0; k < 200; k++ {
+			x := r.Uint64() >> uint(r.Intn(64))
+			for _, wd := range []uint64{1, 2, 4, 8} {
+				w := wd
+				out.emit("wprim", "wprim", []string{hx(w), hx(x)}, guard(func() string {
+					var buf bytes.Buffer
+					ew := codec.NewEncodingWriter(&buf)
+					var err error
+					switch w {
+					case 1:
+						err = ew.WriteByte(byte(x))
+					case 2:
+						err = ew.WriteUint16(uint16(x))
+					case 4:
+						err = ew.WriteUint32(uint32(x))
+					case 8:
+						err = ew.WriteUint64(x)
+					}
+					if err != nil {
+						return "ERR"
+					}
+					return hexBytes(buf.Bytes()) + " n=" + hx(uint64(ew.Written()))
+				}))
+			}
+		}
+	}
+	// a None value with a non-zero selector cannot be encoded
+	for _, sel := range []int{1, 2, 3, 200} {
+		ty := &Ty{Kind: "union", None: true, Fields: []*Ty{{Kind: "u", N: 8}, {Kind: "u", N: 2}}}
+		v := &Val{Kind: "un", Sel: sel}
+		out.emit("illtyped", "c09x", []string{ty.Sexp(), v.Sexp()}, guard(func() string {
+			d, err := flatEncode(&fUnion{t: ty, sel: uint8(sel)})
+			if err != nil {
+				return "enc=ERR"
+			}
+			return "enc=" + hexBytes(d)
+		}))
 	}
 	n := 700
 	if thorough() {
